@@ -207,6 +207,7 @@ Crossbeam<'a, ItemType, BUFFER_SIZE, MAX_STREAMS> {
 
     #[inline(always)]
     fn consume(&self, stream_id: u32) -> Option<Arc<ItemType>> {
+        #[cfg(feature = "verif")] crate::verif::point(crate::verif::MULTI_XB_CONSUME_ENTER);
         let receiver = unsafe { self.receivers.get_unchecked(stream_id as usize) };
         match receiver.try_recv() {
             Ok(event) => {
